@@ -108,13 +108,6 @@ func Check01(c Case01, r *core.Rec) {
 	if msg == "" {
 		return
 	}
-	// attribute to an open known finding only if the model with exactly that quirk agrees on the
-	// entire observation
-	var tq spec.Trace
-	if qmsg, _, _ := compare01(ModelQ(spec.QuirkTabNLBytes), c, &tq); qmsg == "" {
-		r.Known("KF-C01-tabnl-bytes", "%s", msg)
-		return
-	}
 	r.Failf("%s", msg)
 }
 
